@@ -111,31 +111,31 @@ func c07Gen(r *rng.Rand, i int, tier string) interface{} {
 }
 
 type c07Obs struct {
-	Events    []string       `json:"events"`
-	Returned  map[string]int `json:"returned_at"` // writer -> index of the op after which it was first seen returned
-	Unflushed []string       `json:"unflushed,omitempty"`
-	Stuck     string         `json:"stuck,omitempty"`
-	Early     []int          `json:"early,omitempty"`
-	TGs       [][]schedx.Cmd `json:"tgs"`
+	Events      []string       `json:"events"`
+	Returned    map[string]int `json:"returned_at"` // writer -> index of the op after which it was first seen returned
+	Unflushed   []string       `json:"unflushed,omitempty"`
+	Stuck       string         `json:"stuck,omitempty"`
+	Unexplained []int          `json:"unexplained_returns,omitempty"`
+	TGs         [][]schedx.Cmd `json:"tgs"`
 }
 
 type c07run struct {
-	in       c07In
-	inst     *schedx.Inst
-	evs      []string
-	enc      []byte
-	started  int
-	ret      []int32
-	startedW []bool
-	fake     map[int]chan struct{} // harness-played writers blocked on their token
-	fakeRet  map[int]*int32
-	early    []int
-	firstRet map[int]bool
-	obs      c07Obs
-	holds    bool
-	class    string
-	detail   string
-	loopHeld int // tokens taken by the harness-played loop and not yet acknowledged (always 0 between ops)
+	in          c07In
+	inst        *schedx.Inst
+	evs         []string
+	enc         []byte
+	started     int
+	ret         []int32
+	startedW    []bool
+	fake        map[int]chan struct{} // harness-played writers blocked on their token
+	fakeRet     map[int]*int32
+	unexplained []int
+	firstRet    map[int]bool
+	obs         c07Obs
+	holds       bool
+	class       string
+	detail      string
+	loopHeld    int // tokens taken by the harness-played loop and not yet acknowledged (always 0 between ops)
 }
 
 func (c *c07run) lab(s string)                    { c.ev("L (" + s + ")") }
@@ -149,7 +149,7 @@ func (c *c07run) ev(s string) {
 }
 
 var c07Op0 = map[string]byte{"LStart": 5, "LRecv": 6, "LTick": 7, "LCkpt": 8, "LFl": 9, "LAckL": 10, "EnvShut": 11, "LShut": 12, "LShutC": 13}
-var c07OpN = map[string]byte{"Enq": 0, "RdHave": 1, "RdLen": 2, "SendTok": 3, "InlFl": 4, "ORet": 16, "OVis": 18, "OFch": 19, "OWch": 20, "OHave": 21}
+var c07OpN = map[string]byte{"Enq": 0, "RdHave": 1, "SendTok": 3, "InlFl": 4, "ORet": 16, "OVis": 18, "OFch": 19, "OWch": 20, "OHave": 21}
 
 func c07Encode(s string) []byte {
 	s = strings.TrimSuffix(strings.TrimPrefix(s, "L ("), ")")
@@ -270,17 +270,6 @@ func (c *c07run) observe(opIdx int) {
 					c.obs.Unflushed = append(c.obs.Unflushed, msg)
 					if c.holds {
 						c.holds, c.detail = false, msg
-						// finding class = executable mirror of the Coq guard [early]: this writer's
-						// RequestFlush ran with haveWALWriter set while a flush token was queued
-						isEarly := false
-						for _, e := range c.early {
-							if e == w {
-								isEarly = true
-							}
-						}
-						if isEarly {
-							c.class = "flush-token-queued"
-						}
 					}
 					break
 				}
@@ -358,7 +347,6 @@ opsLoop:
 			w := op.W
 			go func() { <-f; atomic.StoreInt32(&c.ret[w], 1) }()
 			c.labf("RdHave %d true", w)
-			c.labf("RdLen %d false", w)
 			c.labf("SendTok %d", w)
 		case "start":
 			w := op.W
@@ -370,12 +358,6 @@ opsLoop:
 			fl0 := executor.VerifHFlushLen(c.inst.WAL)
 			have0 := executor.VerifHGetHave()
 			hits0 := S.NHits()
-			if in.Mode == "noloop" && have0 && fl0 == 0 {
-				continue // the writer would block for ever: nobody answers tokens
-			}
-			if have0 && fl0 > 0 {
-				c.early = append(c.early, w)
-			}
 			c.spawn(w)
 			if !c.quiesce() {
 				stuck(fmt.Sprintf("start %d", w))
@@ -396,10 +378,7 @@ opsLoop:
 						c.labf("InlFl %d", w)
 					}
 				}
-			case returned && (parked0 || fl0 > 0): // found a token queued: returned without waiting
-				c.labf("RdLen %d true", w)
-			case returned: // loop was idle: own token answered by an empty flush
-				c.labf("RdLen %d false", w)
+			case returned && !parked0 && fl0 == 0: // loop was idle: own token answered by a flush
 				c.labf("SendTok %d", w)
 				c.lab("LRecv")
 				c.lab("LFl")
@@ -412,10 +391,13 @@ opsLoop:
 				}
 				c.lab("LAckL")
 				nAcked++
+			case returned:
+				// returned although the loop was held or other tokens were queued ahead of its own: nothing in the
+				// protocol explains that; no further labels (the ORet observation will not match the model)
+				c.unexplained = append(c.unexplained, w)
 			default: // blocked on its own token
-				c.labf("RdLen %d false", w)
 				c.labf("SendTok %d", w)
-				if !parked0 && S.IsParked() { // the loop took the token and is now held after the fsync
+				if !parked0 && fl0 == 0 && S.IsParked() { // the loop took the token and is now held after the fsync
 					bs, _ := S.Batches()
 					c.lab("LRecv")
 					c.flushLabelsParked("LFl", len(bs[len(bs)-1]))
@@ -435,9 +417,12 @@ opsLoop:
 			c.lab("LFl") // primary writes
 			c.lab("LAckL")
 			nAcked++
-			if fl0 > 0 {
+			// the loop then serves queued tokens one by one until flushChannel is empty or a non-empty flush parks it
+			consumed := fl0 - executor.VerifHFlushLen(c.inst.WAL)
+			reparked := S.NHits() > hits0
+			for i := 1; i <= consumed; i++ {
 				c.lab("LRecv")
-				if S.NHits() > hits0 {
+				if i == consumed && reparked {
 					bs, _ := S.Batches()
 					c.flushLabelsParked("LFl", len(bs[len(bs)-1]))
 				} else {
@@ -493,7 +478,7 @@ opsLoop:
 	}
 
 	c.obs.Events = c.evs
-	c.obs.Early = c.early
+	c.obs.Unexplained = c.unexplained
 	res.Obs = c.obs
 	ks := make([]string, len(in.Ks))
 	for i, k := range in.Ks {
@@ -501,23 +486,17 @@ opsLoop:
 	}
 	res.Coq = cq.Rec(cq.F("k_ks", cq.List(ks)), cq.F("k_enc", cq.Hex(c.enc)))
 	res.Holds, res.Class, res.Detail = c.holds, c.class, c.detail
-	hasEarly, steady := len(c.early) > 0, true
+	steady := true
 	for _, e := range c.evs {
 		if strings.HasPrefix(e, "L (InlFl") || (strings.HasPrefix(e, "L (RdHave") && strings.HasSuffix(e, "false)")) {
 			steady = false
 		}
-		if strings.HasPrefix(e, "L (RdLen") && strings.HasSuffix(e, "true)") {
-			hasEarly = true
-		}
 	}
-	res.InDomain = steady && !hasEarly
+	res.InDomain = steady
 	res.Nontrivial = c.started >= 2 && nAcked >= 1
 	res.Tags = []string{"mode:" + in.Mode, fmt.Sprintf("writers=%d", len(in.Ks)), fmt.Sprintf("acked=%d", nAcked)}
 	if in.Gated && in.Mode == "loop" {
 		res.Tags = append(res.Tags, "gated")
-	}
-	if hasEarly {
-		res.Tags = append(res.Tags, "early-return")
 	}
 	if !steady {
 		res.Tags = append(res.Tags, "inline-flush")
@@ -598,9 +577,6 @@ func c07Free(in c07In, raw json.RawMessage) (res Result, err error) {
 	}
 	res.Key = string(raw) + fmt.Sprint(len(bs))
 	res.Holds, res.Detail = holds, detail
-	if !holds && len(in.Ks) >= 2 && len(bad) > 0 {
-		res.Class = "flush-token-queued" // >= 2 concurrent writers against the running loop
-	}
 	res.Obs = map[string]interface{}{"batches": bs, "bad": bad}
 	ks := make([]string, len(in.Ks))
 	for i, k := range in.Ks {
